@@ -67,3 +67,38 @@ func Mutate(r *Rng, s string) string {
 		return string(b[:i]) + " " + string(b[i:])
 	}
 }
+
+// BigShapes are adversarial inputs of about n tokens: deep parentheses, long AND / OR / juxtaposition chains,
+// operator-only runs, prefix-operator towers, long escape runs, unterminated delimiters after a long prefix.
+func BigShapes(n int) []string {
+	rep := strings.Repeat
+	return []string{
+		rep("(", n) + "a" + rep(")", n),
+		rep("(", n) + "a",
+		"a" + rep(")", n),
+		rep("a AND ", n) + "b",
+		rep("a OR ", n) + "b",
+		rep("a:b ", n),
+		rep("a ", n),
+		rep("NOT ", n) + "a",
+		rep("+", n) + "a",
+		rep("- ", n) + "a",
+		"a" + rep("~", n),
+		"a" + rep("^2", n),
+		rep("a:(", n/2) + "b" + rep(")", n/2),
+		rep(":", n),
+		rep("AND ", n),
+		rep("[", n),
+		rep("a:[1 TO 2] ", n/4),
+		rep("\\", n),
+		rep("a\\ ", n),
+		"\"" + rep("x ", n),
+		"/" + rep("x\\/", n),
+		rep("(a OR b) AND ", n/4) + "c",
+		rep("a:b OR c:d AND ", n/6) + "e",
+		rep("-1 ", n),
+		rep("1.5 ", n),
+		rep("é", n),
+		rep("\xff", n),
+	}
+}
